@@ -269,7 +269,9 @@ def write_evidence(prop, tier, seed, level, coverage, assumptions, wall_s, viola
         if k not in coverage:
             raise HarnessError(f"evidence coverage lacks {k}")
     # evidence describes /repo itself; a run against a scratch copy (VERIF_REPO) must not overwrite it
-    edir = EVIDENCE_DIR if not os.environ.get("VERIF_REPO") else os.path.join(VERIF, "replays", "scratch-evidence")
+    # (nor a debugging run with a reduced budget: VERIF_NO_EVIDENCE / VERIF_RUNS / VERIF_ONLY)
+    scratch = any(os.environ.get(k) for k in ("VERIF_REPO", "VERIF_NO_EVIDENCE", "VERIF_RUNS", "VERIF_ONLY"))
+    edir = EVIDENCE_DIR if not scratch else os.path.join(VERIF, "replays", "scratch-evidence")
     os.makedirs(edir, exist_ok=True)
     path = os.path.join(edir, f"{prop}.json")
     tmp = path + ".tmp"
